@@ -238,10 +238,29 @@ class Grammar:
                 self.gen(rng, expr[1], budget - 1, out, cover, path + ("s",))
         elif t == "plus":
             n = 1 if budget <= 0 else rng.choice([1, 1, 2, 3])
+            if getattr(self, "_zero_plus", None) == path:
+                n = 0        # deliberately below the lower bound of the repetition (a non-sentence unless derivable otherwise)
             if cover is not None:
                 cover.add(path + ("plus", min(n, 2)))
             for _ in range(n):
                 self.gen(rng, expr[1], budget - 1, out, cover, path + ("p",))
+
+    def plus_paths(self):
+        return sorted({p[:-2] for p in self.choice_points() if len(p) >= 2 and p[-2] == "plus"})
+
+    def sentence_without(self, rng, plus_path, budget=6):
+        """a sentence in which the repetition at `plus_path` (an `X+`) is expanded zero times, wrapped so that the rule is reached"""
+        self._zero_plus = plus_path
+        try:
+            for _ in range(200):
+                cover = set()
+                out = self.sentence(rng, "SourceFile", budget, cover)
+                # the forced repetition was reached iff its path shows up in the cover set with count key
+                if any(c[:-2] == plus_path for c in cover if len(c) >= 2 and c[-2] == "plus"):
+                    return out
+            return None
+        finally:
+            self._zero_plus = None
 
     def sentence(self, rng, nt="SourceFile", budget=8, cover=None):
         out = []
@@ -408,7 +427,6 @@ WITNESS = {
     "slice-second-integer": "def d { int a = x[1 0b1]; }",
     "foreach-init-lookahead": "foreach i = {a, b} in def d;",
     "positional-after-named": "def d : A<x = 1, 2>;",
-    "multiclass-empty-body": "multiclass M { }",
     "list-type-suffix": "def d { list<int> a = [1, 2]<int>; }",
     "string-concat": "def d { string a = \"a\" \"b\"; }",
     "type-code": "class A<code c>;",
@@ -427,8 +445,6 @@ DEVIATIONS = [
      "ForeachIteratorInit is decided on one token: '{' always starts a range list and a decimal/hex integer a range piece, so `foreach i = {a, b} in` (a bits value), `foreach i = 1 # 2 in` and `foreach i = 0b1...3 in` are rejected"),
     ("positional-after-named", RESTRICT, dev_positional_after_named,
      "ArgValueList is documented as any mix of positional and named arguments; the parser (like llvm-tblgen) reports a positional argument that follows a named one: `A<x = 1, 2>`"),
-    ("multiclass-empty-body", EXTEND, dev_multiclass_empty,
-     "`MultiClass ::= ... \"{\" MultiClassStatement+ \"}\"`: the parser accepts an empty body `multiclass M { }`"),
     ("list-type-suffix", EXTEND, dev_list_type_suffix,
      "the parser accepts an element type after a list literal, `[1, 2]<int>` (valid TableGen, missing from the documented List rule)"),
     ("string-concat", EXTEND, dev_string_concat,
